@@ -235,7 +235,9 @@ CHECKS = {
        "3/4 over 24 operations x 3 reentrancy configs, each with a full release and re-acquire probes by everybody; "
        "whole with-blocks - acquire_ctx non-blocking / timed / blocking and the with-statement - as extra operations, "
        "expanded to the acquire and, only if the block was entered, a release; random to length 12) and every single "
-       "/ double OSError injection into open/lock/unlock/close",
+       "/ double OSError injection into open/lock/unlock/close; plus random multi-thread scenarios on the real code "
+       "under the baton scheduler (2-4 threads, every access to the thread lock / descriptor / flock a scheduling "
+       "point) judged by a contract monitor (is_locked while inside, re-acquirable after the releases, no residue)",
   note=NOTE_COMMON + "The refinement theorem is for fault-free histories; behaviour under injected OSErrors is "
        "covered by the model-vs-code differential plus a no-residue monitor, not by a theorem. threading.Lock/RLock "
        "are re-implemented by the harness for sequential runs; the kernel's flock is the real one.",
@@ -308,14 +310,18 @@ CHECKS = {
        "callers and helper threads on one target loop; double-checked lock creation, loop lock, three-way dispatch, "
        "awaitables that progress only while some thread runs the target): C17_one_runner (never two threads inside "
        "run_* of the loop, every interleaving), C17_lock_unique, C17_on_target, C17_transparent, C17_closed_raises, "
-       "C17_stopped_before_return, C17_completes_partial, and C17_counterexample_borrowed_loop_stops (a `decide`d "
+       "C17_stopped_before_return, C17_completes_partial, C17_helpers_never_stuck (neither the creation lock nor "
+       "the loop lock is ever waited for for ever: a helper move is enabled whenever a helper thread is under way, "
+       "unless loop_in_thread runs the loop and no stop was requested), C17_helper_moves_forward (at most eight "
+       "steps per helper thread), C17_awaitable_moves_forward, C17_borrow_returns, and C17_counterexample_borrowed_loop_stops (a `decide`d "
        "model trace in which a second caller proxies onto a borrowed loop that then stops: the full completion "
        "clause is false of the code, finding F7). Tie: 2..3 real caller threads with their own loops + the pool "
        "threads run under the baton scheduler with cooperative pool / locks / lock table / spin; the label trace "
        "must be accepted by the model; monitor: result and exception identity, loop identity inside the awaitable, "
        "runner count, loop_in_thread handshake, hang detector",
   note=NOTE_COMMON + "Known finding F7 (known_findings.json, signature hang / threadsafe-proxy / "
-       "borrowed-by-run_until_complete). Partial: completion is proved only for a target that keeps running.",
+       "borrowed-by-run_until_complete). Partial: completion is proved for a target that keeps running and, up to "
+       "scheduler fairness, for the borrowing branch (deadlock freedom + bounded steps); it is false for the proxying branch (F7).",
   tech="Lean 4 proof (inductive invariant over an LTS, all interleavings; decide counter-example) + trace "
        "refinement check under a deterministic scheduler + hang detector", ref="§5 C17"),
  "C01": dict(
